@@ -17,7 +17,7 @@ import CalVerif.Gen.Ftab
     Representation choices (validated by the correspondence run, not proved):
       * the output buffer is a `List Char` and offsets count characters; Rust offsets count UTF-8 bytes.
         Every offset the code ever uses was `formula.len()` when pushed and the text before the last
-        stack entry is never edited afterwards (theorem `run_inv` in Props/C14), so the offsets are
+        stack entry is never edited afterwards (theorem `offsets_never_panic` in Props/C14), so the offsets are
         character boundaries and the two readings select the same text;
       * numbers: `PtgNum` is printed by Rust's `Display for f64`; the model takes the printer as the
         parameter `Ctx.fmtNum` (bits → text) and nothing else depends on it;
